@@ -408,9 +408,11 @@ def run(ctx):
     wd2 = tlc.prepare(ctx.scratch, 'EventBus', 'eventbus_rb')
     with open(wd2 + '/Gen.cfg', 'w') as f:
         f.write(c01.cfg_text('Spec', '{"e1", "e2"}', '{"h1", "h2", "h3", "h4"}', 6, 16, '{}',
-                             '{"boolean", "relay"}', '{TRUE, FALSE}', 'DefaultCondSet', '{0, 1}', invs=False))
+                             '{"boolean", "relay"}', '{TRUE, FALSE}', 'FullCondSet', '{0, 1}', invs=False))
     behs, _ = tlc.simulate(wd2, 'EventBus', 'Gen.cfg', num=250 if ctx.quick else 4000, depth=60, seed=ctx.seed + 3)
     jobs2 = [([s['act'] for s in b], rnd.choice(c01.CTXS), 'direct') for b in behs]
+    # the hand-written EventBus schedules too (relay chains, relay events posted without any kwargs, boolean stops)
+    jobs2 += [(s, cx, 'direct') for s in c01.handmade() for cx in ('direct', 'delay')]
     tr2 = harness.pmap(c01.exec_schedule, jobs2, chunk=8)
     with open(wd2 + '/Trace.cfg', 'w') as f:
         f.write(c01.cfg_text('TSpec', '{}', '{}', 10 ** 6, 10 ** 6, '{"FastPathDrop"}', '{}', '{}', 'DefaultCondSet', '{}',
